@@ -58,17 +58,24 @@ def load_prop(pid: str) -> Prop:
     return mod.PROP
 
 
+_WORKER_HISTORY: List[List[Any]] = []     # the cases this worker process handled before, in order (they share the process, the scratch path and
+                                          # every class-level or module-level cache of the library with the current case)
+
+
 def _work(arg: Tuple[str, int, int, str]) -> Tuple[Dict[str, Any], Dict[str, Any]]:
     pid, seed, k, tier = arg
     from . import hta
     hta.setup()
     prop = load_prop(pid)
     rng = random.Random(f"{seed}/{pid}/{k}")
+    before = [list(h) for h in _WORKER_HISTORY]
+    _WORKER_HISTORY.append([pid, seed, k, tier])
     for _ in range(40):
         case = prop.gen_case(rng, k, tier)
         case["id"] = f"{pid}-{seed}-{k}"
         obs = _observe(prop, case)
         if not obs.get("skip"):      # the generated input fell outside the property's quantifier: draw again
+            case["worker_history"] = before
             return case, obs
     raise RuntimeError(f"{pid}: 40 consecutive generated cases were outside the input domain")
 
@@ -86,6 +93,11 @@ def _work_replay(arg: Tuple[str, Dict[str, Any]]) -> Dict[str, Any]:
     pid, case = arg
     from . import hta
     hta.setup()
+    for h in case.get("worker_history", []):       # same process history as in the run that recorded the case
+        try:
+            _work(tuple(h))
+        except Exception:
+            pass
     return _observe(load_prop(pid), case)
 
 
